@@ -4,6 +4,8 @@ Oracle: vf.model.subst (whole-word fix-point substitution with cycle detection) 
 defined so far; the substituted text is evaluated by the reference expression evaluator; compared with the bytes the
 real CLI emitted.  Probe: `subst` (in/out pairs of Preprocessor.resolve_symbols).
 """
+import re
+
 from vf import core, isa as isamod, gen_prog
 from vf.model import subst, expr as E
 
@@ -18,8 +20,9 @@ class C09(core.Check):
             'mixing symbols with constants and labels whose names have a symbol as prefix, suffix or infix; a constant carrying '
             'the symbol\'s own name before the definition (use before definition); double definitions across every pair of '
             'sources. Expected bytes = evaluate(substitute(line)). distinct_nontrivial = distinct (feature tag set) signatures.')
-    assumptions = ('symbol names have >= 2 characters, contain a non-hex letter, never occur inside quoted strings or directly '
-                   'after "." / "$" (those adjacency cases are not fixed by the statement)',
+    assumptions = ('symbol names have >= 2 characters, contain a non-hex letter and never occur directly after "." / "$" (those '
+                   'adjacency cases are not fixed by the statement); a whole-word occurrence between quotes is replaced like any other '
+                   '("every whole-word occurrence"), probed only where the replaced text is made of word characters, operators and single blanks',
                    'an unused cyclic definition is DONT_CARE')
     chunk = 800
     required_buckets = {b: 3 for b in [
@@ -27,9 +30,10 @@ class C09(core.Check):
         'cycle:2', 'cycle:3', 'cycle:4', 'use-before-define', 'double:isa+isa', 'double:isa+cli', 'double:isa+define',
         'double:cli+cli', 'double:cli+define', 'double:define+define', 'expands-to:register', 'expands-to:label',
         'expands-to:expression', 'source:isa', 'source:cli', 'source:define', 'unparenthesised-expression-value', 'double:identical-text',
-        'cycle:replacement-is-the-bare-name-itself', 'quoted-value-used', 'quoted-value-with-blank-run', 'valueless-symbol-used', 'define-while-muted', 'same-line-text-repeated', 'quoted-value-from:isa', 'quoted-value-from:cli', 'quoted-value-from:define']}
+        'cycle:replacement-is-the-bare-name-itself', 'quoted-value-used', 'quoted-value-with-blank-run', 'valueless-symbol-used', 'define-while-muted', 'same-line-text-repeated', 'quoted-value-from:isa', 'quoted-value-from:cli', 'quoted-value-from:define',
+        'symbol-inside-a-string', 'symbol-inside-a-string:replaced']}
 
-    def build(self, rng, mode, quoted=None, muted=None, nil=None):
+    def build(self, rng, mode, quoted=None, muted=None, nil=None, in_string=None):
         tags = set()
         bases = list(BASES)
         rng.shuffle(bases)
@@ -267,6 +271,25 @@ class C09(core.Check):
                 cur_addr += len(b)
                 tags.add('quoted-value-used')
                 continue
+            if table and (in_string if in_string is not None else rng.random() < 0.12):
+                # a whole-word occurrence between quotes is an occurrence like any other (and a containing word is not)
+                s_ = rng.choice(sorted(table))
+                inner = rng.choice([s_, f'{s_} ok', f'id {s_}', f'{s_}x {s_}', f'x{s_} {s_}_y', f'({s_})'])
+                try:
+                    sub_ = subst.substitute(inner, table)
+                except subst.Cycle:
+                    sub_ = None
+                if sub_ is not None and re.fullmatch(r'[\w+*()$%-]+( [\w+*()$%-]+)*', sub_):
+                    d_ = rng.choice(['.cstr', '.asciiz', '.byte'])
+                    line = f'{d_} "{inner}"'
+                    b = sub_.encode() + (b'' if d_ == '.byte' else b'\0')
+                    out.append(line)
+                    probes.append({'line': len(out), 'text': line, 'sub': sub_, 'addr': cur_addr, 'bytes': b.hex(), 'kind': 'in-string'})
+                    cur_addr += len(b)
+                    tags.add('symbol-inside-a-string')
+                    if sub_ != inner:
+                        tags.add('symbol-inside-a-string:replaced')
+                    continue
             if nil_sym and nil_sym in table and rng.random() < 0.35:
                 text = rng.choice([f'{nil_sym} {text}', f'{text} {nil_sym}', f'{nil_sym} {text} {nil_sym}'])
                 tags.add('valueless-symbol-used')
@@ -316,7 +339,8 @@ class C09(core.Check):
         for i in range(n_pre + n):
             rng = core.rng_for(0 if i < n_pre else seed, self.pid, i)
             mode = ['plain', 'plain', 'cycle', 'double'][i % 4] if i < n_pre else rng.choice(['plain', 'plain', 'plain', 'cycle', 'double'])
-            c = self.build(rng, mode, quoted=(i % 3 == 0) if i < n_pre else None, muted=(i % 5 < 2) if i < n_pre else None, nil=(i % 4 == 1) if i < n_pre else None)
+            c = self.build(rng, mode, quoted=(i % 3 == 0) if i < n_pre else None, muted=(i % 5 < 2) if i < n_pre else None, nil=(i % 4 == 1) if i < n_pre else None,
+                           in_string=(i % 6 == 1 or None) if i < n_pre else None)
             if c:
                 yield c
 
